@@ -613,6 +613,40 @@ def ddmin(ops, fails):
             n = min(len(ops), n * 2)
     return ops
 
+HANDLE_FIELDS = {'AC': (1, 2), 'IB': (1, 2, 3), 'RC': (1, 2, 3), 'RM': (1, 2), 'SAN': (1, 2), 'RAN': (1, 2), 'NS': (1, 2)}
+
+def drop_op(docs, ops, view, k):
+    """history without op k, handle indices of the later ops renumbered when op k had put new
+    handles into the table; None when a later op refers to one of those handles"""
+    line = run_impl([mkcase(docs, ops, view)], shards=1)
+    recs = parse_line(line[0]) if line else None
+    if not recs or any(r.bad or r.skipped for r in recs):
+        return None
+    before, after = len(recs[k].nodes), len(recs[k + 1].nodes)
+    g = after - before
+    out = list(ops[:k])
+    for o in ops[k + 1:]:
+        o = list(o)
+        for f in HANDLE_FIELDS.get(o[0], (1,)):
+            if f < len(o) and isinstance(o[f], int):
+                if before <= o[f] < after and g > 0:
+                    return None
+                if o[f] >= after:
+                    o[f] -= g
+        out.append(tuple(o))
+    return out
+
+def refine(docs, ops, view, fails):
+    """one-at-a-time removal with handle renumbering, after ddmin"""
+    ops = list(ops)
+    k = len(ops) - 1
+    while k >= 0 and len(ops) > 1:
+        cand = drop_op(docs, ops, view, k)
+        if cand is not None and cand and fails(cand):
+            ops = cand
+        k -= 1
+    return ops
+
 def first_violation(docs, ops, view, oracle):
     """(index of the first op after which `oracle` reports something, violations) on the implementation"""
     line = run_impl([mkcase(docs, ops, view)], shards=1)[0]
@@ -798,7 +832,7 @@ def shrink_failure(f, prop):
         return False
     if not fails(ops):
         return f
-    small = ddmin(ops, fails)
+    small = refine(docs, ddmin(ops, fails), view, fails)
     g = dict(f); g['ops'] = [list(o) for o in small]; g['shrunk_from'] = len(ops)
     return g
 
@@ -813,7 +847,7 @@ def shrink_mismatch(m):
         return bool(ml) and first_mismatch(il[0], ml[0]) is not None
     if not fails(ops):
         return m
-    small = ddmin(ops, fails)
+    small = refine(docs, ddmin(ops, fails), view, fails)
     g = dict(m); g['ops'] = [list(o) for o in small]; g['shrunk_from'] = len(ops)
     return g
 
